@@ -445,6 +445,43 @@ def eval_cases(ctx, name, imports, batch, cases, case_type, defs, shard=60, time
     return out
 
 
+def g_list(xs):
+    return "[" + "; ".join(xs) + "]"
+
+
+def g_opt(x):
+    return "None" if x is None else "(Some %s)" % x
+
+
+def obs_term(x):
+    """one element of a driver result's "res" list -> Gallina `docobs` (coq/Model/GoSem.v)"""
+    enc = g_opt(srcgen.doc_to_gallina(x["enc"])) if x.get("std") == "ok" and x.get("encs") == "ok" else "None"
+    senc = g_opt(srcgen.doc_to_gallina(x["senc"])) if x.get("strict") == "ok" and x.get("sencs") == "ok" else "None"
+    if x.get("vals") == "ok":
+        val = "(Some [])"
+    elif x.get("vals") == "err":
+        val = "(Some %s)" % g_list(srcgen.g_str(p) for p in (x.get("val") or []))
+    elif x.get("vals") == "panic":
+        val = '(Some ["<panic>"])'
+    else:
+        val = "None"
+    return "(mkObs %s %s %s %s %s)" % (srcgen.g_str(x.get("std") or ""), enc, val, srcgen.g_str(x.get("strict") or ""), senc)
+
+
+def gcase_term(sid, pkg, objname, pydocs, result):
+    """Gallina `gcase` (coq/Model/GoSem.v): the context ctx_<sid>, the object, the documents and
+    everything the driver observed (result = one dict returned by Batch.run)."""
+    mat = g_list(g_list({"t": "(Some true)", "f": "(Some false)"}.get(c, "None") for c in row)
+                 for row in (result.get("eq") or []))
+    return "(ctx_%s, %s, %s, %s, %s, %s)" % (
+        sid, srcgen.g_str(pkg), srcgen.g_str(objname), g_list(srcgen.doc_to_gallina(d) for d in pydocs),
+        g_list(obs_term(x) for x in result["res"]), mat)
+
+
+GCASE_DEFS = [("UNM", "case_unmodelled"), ("STD", "mm_std"), ("STRICT", "mm_strict"), ("VAL", "mm_validate"),
+              ("EQ", "mm_equals")]
+
+
 def coq_print(ctx, name, imports, batch, sids, body, timeout=600):
     """development/diagnosis aid: compile a scratch file with the given contexts + body (Eval/Print
     commands) and return coqc's output."""
